@@ -228,9 +228,12 @@ zix_copy_file(ZixAllocator* const  allocator,
 
 #if USE_COPY_FILE_RANGE
   // Try to copy via the kernel on Linux/BSD to take advantage of CoW
-  st = zix_copy_file_range(src_fd, dst_fd, (size_t)src_stat.st_size);
-  if (st != ZIX_STATUS_NOT_SUPPORTED) {
-    return finish_copy(dst_fd, src_fd, st);
+  // (files that report no size, as in procfs, are read until the end below)
+  if (src_stat.st_size > 0) {
+    st = zix_copy_file_range(src_fd, dst_fd, (size_t)src_stat.st_size);
+    if (st != ZIX_STATUS_NOT_SUPPORTED) {
+      return finish_copy(dst_fd, src_fd, st);
+    }
   }
 #endif
 
